@@ -297,9 +297,13 @@ def plan(tier, seed):
             items.append(('splitter', SIGMA, length, lo, hi, None))
     desc.append('str_to_lines/escape_str_for_quote: all str+bytes over %r up to length %d x max_len 1..8 x 2 quotes' % (SIGMA, 5 if q else 6))
     path_sigma = ['a', '/', ' ', "'"]
+    try:        # the pattern the path printer really uses, when it can be found
+        path_pattern = importlib.import_module('prettyprinter.pretty_stdlib').pathstr_split_pattern.pattern
+    except (ImportError, AttributeError):
+        path_pattern = '(/+)'
     for length in range(0, 7):
-        items.append(('splitter', path_sigma, length, 0, 10 ** 9, '(/+)'))
-    desc.append('same with the path pattern (/+) over %r up to length 6' % path_sigma)
+        items.append(('splitter', path_sigma, length, 0, 10 ** 9, path_pattern))
+    desc.append('same with the path printer\'s pattern %r over %r up to length 6' % (path_pattern, path_sigma))
     for length in range(0, (4 if q else 5) + 1):
         total = len(SIGMA) ** length
         for lo, hi in core.chunks(total, 1 if total < 500 else 64):
